@@ -73,6 +73,12 @@ def cases(tier, seed):
         yield {"problem": ps, "edit_bounds": False,
                "cfg": {"jac": "callable", "maxcor": int(rng.integers(1, 11)), "maxls": 20, "maxiter": 100, "maxfun": 15000, "ftol": 0.0, "gtol": 1e-9, "cb": "never",
                        "eps_SY": float(gen.pick(rng, [0.0, 1e-300, 1e-300, 1e-40]))}}
+    for i in range(1200 if tier == "quick" else 30000):
+        # searches limited to two or three trials inside boxes: the last trial allowed is often neither the first nor a converged one
+        ps = gen.rand_spec(rng, gen.ALL_FAMILIES, nmax=8, nmin=1, boxes=("boxed", "narrow", "mixed", "lower", "upper", "unit"), starts=("interior", "face", "vertex", "outward"))
+        yield {"problem": ps, "edit_bounds": False,
+               "cfg": {"jac": gen.pick(rng, ["callable", "callable", "callable", "2-point"]), "maxcor": int(rng.integers(1, 11)), "maxls": int(gen.pick(rng, [2, 2, 2, 3])),
+                       "maxiter": int(rng.integers(5, 40)), "maxfun": 15000, "ftol": 0.0, "gtol": 1e-9, "cb": "never"}}
     for i in range(150 if tier == "quick" else 4000):
         cfg = e2e.rand_cfg(rng)
         cfg.update(jac="callable", cb="never", maxls=20, maxiter=int(rng.integers(3, 25)), maxfun=15000)
